@@ -764,6 +764,12 @@ func compileAssignStmtRight(context *funcContext, stmt *ast.AssignStmt, reg int,
 			// store, so a local target must not be written while evaluating
 			ec = ecnone(0)
 		}
+		if _, ok := expr.(*ast.LogicalOpExpr); ok && ec.ctype == ecLocal {
+			// and/or code uses the destination register as scratch for intermediate
+			// operands (x = (a or b) and -x) and leaves a falsy left operand that is
+			// not a plain local in its temporary (x = not y and 1): go through one
+			ec = ecnone(0)
+		}
 		reginc := compileExpr(context, reg, expr, ec)
 		if ec.ctype == ecTable {
 			if _, ok := expr.(*ast.LogicalOpExpr); !ok && lennames == 1 {
